@@ -327,7 +327,7 @@ func cmdCheck(args []string) int {
 	// bounded stand-ins: run on the real code, never counted as proved
 	var boundedEv []map[string]interface{}
 	for _, b := range spec.Bounded {
-		res, ok := runBounded(repo, verif, b, seed)
+		res, ok := runBounded(repo, verif, b, seed, *tier)
 		res["stands_in_for"] = b.What
 		boundedEv = append(boundedEv, res)
 		if !ok {
@@ -506,7 +506,7 @@ func (p *Prog) lemmaObligations(name string) ([]*Obligation, error) {
 }
 
 // runBounded injects a test from /verif/bounded into the package with -overlay and runs it.
-func runBounded(repo, verif string, b BoundedSpec, seed int) (map[string]interface{}, bool) {
+func runBounded(repo, verif string, b BoundedSpec, seed int, tier string) (map[string]interface{}, bool) {
 	res := map[string]interface{}{"name": b.Name, "label": "bounded (not a proof)"}
 	src := filepath.Join(verif, "bounded", b.File)
 	pkgDir := filepath.Join(repo, b.Pkg)
@@ -518,7 +518,7 @@ func runBounded(repo, verif string, b BoundedSpec, seed int) (map[string]interfa
 	os.WriteFile(ovf, ob, 0o644)
 	cmd := exec.Command("go", "test", "-overlay", ovf, "-vet=off", "-count=1", "-timeout", "600s", "-v", "-run", "^"+b.Test+"$", ".")
 	cmd.Dir = pkgDir
-	cmd.Env = append(os.Environ(), "GOFLAGS=-mod=mod", "GOPROXY=off", "GOSUMDB=off", "GOTOOLCHAIN=local", fmt.Sprintf("VERIF_SEED=%d", seed))
+	cmd.Env = append(os.Environ(), "GOFLAGS=-mod=mod", "GOPROXY=off", "GOSUMDB=off", "GOTOOLCHAIN=local", fmt.Sprintf("VERIF_SEED=%d", seed), "VERIF_TIER="+tier)
 	var buf bytes.Buffer
 	cmd.Stdout = &buf
 	cmd.Stderr = &buf
